@@ -7,6 +7,7 @@ import LlgVerif.Model.Repeat
 import LlgVerif.Model.Engine
 import LlgVerif.Model.Slicer
 import LlgVerif.Model.Stop
+import LlgVerif.Model.Shared
 import Driver.Util
 open LlgVerif Drv
 
@@ -32,6 +33,7 @@ structure St where
   stopToks : List Nat := []
   stopVocab : List (Nat × List UInt8) := []
   stopSt : StopSt := StopCfg.init
+  sharedTbl : List Nat := []
 
 /-- DFA over byte classes: `cls[b]` in `0..k`, `trans[q*k + c]` = successor, `≥ n` = dead. -/
 structure TDfa where
@@ -314,6 +316,19 @@ def handleSlice (st : St) (args : List String) : St × String :=
     match (parseSexp (" ".intercalate rest)).bind sliceOfSexp with
     | some t => ({ st with sliceTop := some t }, "ok")
     | none => (st, "bad-op")
+  | ["parts", idx] =>
+    match st.sliceTop, parseNat? idx with
+    | some top, some idx =>
+      let rec find (fuel : Nat) (s : Slice) : Option Slice :=
+        match fuel with
+        | 0 => none
+        | fuel + 1 => if s.idx = idx then some s else s.kids.findSome? (find fuel)
+      match find 64 top with
+      | some n =>
+        let r := n.remainders
+        (st, "ok " ++ ";".intercalate (r.1.map (fun l => showNatList (canonSet l))) ++ "|" ++ showNatList (canonSet r.2))
+      | none => (st, "no-such-slice")
+    | _, _ => (st, "bad-op")
   | ["bias", matched, allowed, sp] =>
     match st.sliceTop, parseNatList? matched, parseNatList? allowed with
     | some top, some matched, some allowed =>
@@ -343,6 +358,21 @@ def handleStop (st : St) (args : List String) : St × String :=
                              tokBytes := fun t => ((st.stopVocab.find? (·.1 = t)).map (·.2)).getD [] }
       let r := cfg.commit st.stopSt id
       ({ st with stopSt := r.2 }, s!"ok {showHex r.1} {showBool r.2.stopped}")
+    | none => (st, "bad-op")
+  | _ => (st, "bad-op")
+
+/-- shared table model: `init <content hashes>`, `intern <content hash>` -> id and table size -/
+def handleShared (st : St) (args : List String) : St × String :=
+  match args with
+  | ["init", cs] =>
+    match parseNatList? cs with
+    | some cs => ({ st with sharedTbl := cs }, s!"ok {cs.length}")
+    | none => (st, "bad-op")
+  | ["intern", c] =>
+    match parseNat? c with
+    | some c =>
+      let r := intern st.sharedTbl c
+      ({ st with sharedTbl := r.2 }, s!"ok {r.1} {r.2.length}")
     | none => (st, "bad-op")
   | _ => (st, "bad-op")
 
@@ -404,6 +434,7 @@ def step (st : St) (line : String) : St × String :=
   | "eng" :: args => handleEng st args
   | "slice" :: args => handleSlice st args
   | "stop" :: args => handleStop st args
+  | "shared" :: args => handleShared st args
   | "rb" :: args => handleRb st args
   | ["reset"] => ({}, "ok")
   | _ => (st, "bad-op")
